@@ -5,12 +5,15 @@ From Coq Require Import List Bool Arith.
 From XV Require Import model.Deps.
 Import ListNotations.
 
-Record dcase := { d_heap : heap; d_root : nat; d_explicit : list nat; d_observed : list nat }.
+(* d_falsy: the nodes whose object evaluates to False; d_literal: the tree under test still has the literal
+   truth-value test of the task mark (read off a directed run), so its walk is the walk on `blind` *)
+Record dcase := { d_heap : heap; d_root : nat; d_explicit : list nat; d_observed : list nat;
+                  d_falsy : list nat; d_literal : bool }.
 
 Definition subset (a b : list nat) : bool := forallb (fun x => mem x b) a.
 
 Definition check_deps (c : dcase) : bool :=
-  match collect (d_heap c) 64 (d_root c) (d_explicit c) with
+  match collect (if d_literal c then blind (fun t => mem t (d_falsy c)) (d_heap c) else d_heap c) 64 (d_root c) (d_explicit c) with
   | Some ds => subset ds (d_observed c) && subset (d_observed c) ds
   | None => false
   end.
